@@ -26,7 +26,7 @@ from engine import symex  # noqa: E402
 from engine import symdb  # noqa: E402
 from engine.symex import SymNum, Sym, PathCtx  # noqa: E402
 
-logging.disable(logging.WARNING)   # LOG.debug('%d', proxy) never formats
+logging.disable(logging.CRITICAL)  # LOG.debug('%d', proxy) never formats
 
 from placement import conf as pconf  # noqa: E402
 from placement import db_api, deploy, policy, policies  # noqa: E402
